@@ -42,7 +42,7 @@ CLAIMS.update({
         technique="static analysis: token-slot coverage of shift_token_line, Position variant tables, MIR path rule for inserted lines, who-may-write rule on the generator's output/line counter",
         text="For all inputs: shift_token_line reaches every token slot; replacing token content keeps the recorded line; inserted lines are "
              "compensated exactly where they are inserted (append_text_comment only at start; bundler running total); the token-based generator's "
-             "line counter is exact and monotone and padding precedes content. Does not decide that arbitrary pipelines never emit a token whose line is already passed.",
+             "line counter is exact and monotone and padding precedes content; no token is shifted through two routes in one traversal. Does not decide that arbitrary pipelines never emit a token whose line is already passed.",
         note="Unrecognised idioms for writing the output buffer fail closed. " + TB,
         ref="DESIGN.md §3 C04"),
     "C12": dict(
@@ -84,8 +84,8 @@ CLAIMS.update({
         technique="static analysis: decision tables of the two filter predicates extracted by abstract path enumeration (3x3 list states), MIR dominance of Rule::process by both predicates",
         text="For all filter lists: both predicates return (apply empty or matched) and not (skip matched) in each of the 9 abstract list states and "
              "agree with each other; no rule runs without the global and its own predicate having answered true on the item's source; the skip edge is inert; "
-             "all four lists deserialize through the one-or-many helpers. Glob semantics (wax) are not decided.",
-        note="FilterPattern::matches is opaque. " + TB,
+             "all four lists deserialize through the one-or-many helpers. FilterPattern::matches is is_match on its own Glob::new glob (no partition_or_tree). Glob semantics (wax) are not decided.",
+        note="wax is opaque. " + TB,
         ref="DESIGN.md §3 C20"),
 })
 
@@ -95,12 +95,12 @@ CLAIMS.update({
         text="For all programs, the three mechanisms the property anchors are wired at every site: each dropping/folding act of the default rules is "
              "control-dependent on has_side_effects, each operand hoisted into its parent's place is parenthesised under can_return_multiple_values "
              "(two sites pinned by existing tests are known findings), kept effectful expressions stay in order, every default rule reaches all nesting "
-             "positions (C07.visit). Behavioural equivalence of the rewrites is NOT decided.",
+             "positions (C07.visit), index-removal loops run in reverse, if-expression side effects cover every part that may run. Behavioural equivalence of the rewrites is NOT decided.",
         note="has_side_effects/can_return_multiple_values/evaluate trusted as analyses (skeleton under C08). " + TB, ref="DESIGN.md §3 C01"),
     "C02": dict(
         technique="static analysis: decision tables extracted from the precedence/associativity/parenthesis functions and should_break_with_space (pattern ranges expanded) vs independent Lua grammar/lexer tables; guard-before-act rules in the three generators; who-may table for fusion-check bypasses",
-        text="For all trees: the precedence/associativity tables realise the Lua order, the needs-parentheses functions equal the grammar's rule on every "
-             "atom assignment, all three generators wrap operands/`;` exactly under those guards, every character pair Lua's lexer would fuse is separated, "
+        text="For all trees: the precedence/associativity tables realise the Lua order, the needs-parentheses functions (whole body, evaluated per operand kind) return true wherever the grammar, a trailing "
+             "if-expression or a `<` after a cast to a bare type name requires parentheses, all three generators wrap operands/`;` exactly under those guards, every character pair Lua's lexer would fuse is separated, "
              "raw writes cannot fuse. Line wrapping and literal text are not decided.",
         note="One-sided relations (extra spaces/parentheses are harmless). " + TB, ref="DESIGN.md §3 C02"),
     "C05": dict(
@@ -112,12 +112,13 @@ CLAIMS.update({
         technique="static analysis: subset relation between variant tables (duplicated-without-temporary vs constant-false has_side_effects), visitor typestate, multi-value guards, fold-direction sibling rule, conservative-unknown rule",
         text="For all programs: what remove_compound_assignment duplicates is effect-free by has_side_effects' own table, scope-dependent lowering "
              "rules are scope-driven, hoists are multi-value guarded, right-nested chains are folded from the last element (branch order = evaluation "
-             "order), unknown truthiness takes the boxed if-expression form, temporaries are collision-checked. `continue` lowering in repeat-until and "
-             "formatting semantics are not decided.", note=TB, ref="DESIGN.md §3 C06"),
+             "order), unknown truthiness takes the boxed if-expression form, temporaries are collision-checked, values reach `%s` only through tostring, "
+             "a rule re-nesting a repeat body also handles its condition (remove_continue: known finding). Formatting semantics are not decided.", note=TB, ref="DESIGN.md §3 C06"),
     "C08": dict(
         technique="static analysis: decision tables of the evaluator's match expressions vs the soundness skeleton of an abstract domain",
         text="For all expressions: opaque leaves evaluate to Unknown, calls are always effectful, unknown operands may carry metatables, multi-value "
-             "sources are flagged, truthiness is unknown exactly for Unknown and nothing unknown is materialised. Numeric/string results are NOT decided "
+             "sources are flagged, truthiness is unknown exactly for Unknown and nothing unknown is materialised; floats are never compared through total_cmp/EPSILON-style APIs "
+             "nor formatted through Rust's Display; if-expression side effects ask about every part that may run. Numeric/string results are NOT decided "
              "(they need execution).", note="Only the table skeleton. " + TB, ref="DESIGN.md §3 C08"),
     "C09": dict(
         technique="static analysis: event-order rules on both scope visitors, complete identifier-slot classification over the AST type graph, guard rules on name generation and recycling",
@@ -128,12 +129,13 @@ CLAIMS.update({
     "C14": dict(
         technique="static analysis: guard-before-act rule (is_valid_identifier) at every construction of a name from a run-time string, keyword table, totality of the serializer's method set",
         text="For all documents: a key is emitted as a bare name only under is_valid_identifier (which refuses the 21 reserved words, the empty string and "
-             "a leading digit); every other key takes the bracketed string form; no serialize_* method drops its value. Literal text (C13) is not decided.",
+             "a leading digit); every other key takes the bracketed string form; no serialize_* method drops its value; no lossy numeric cast; the long-bracket string form "
+             "is gated by a byte predicate that refuses CR. Literal text otherwise (C13) is not decided.",
         note=TB, ref="DESIGN.md §3 C14"),
     "C16": dict(
         technique="static analysis: decision table over count orderings + guard-before-act rules for the four anchored guards, subset rule for duplicated receivers, visitor typestate",
         text="For all programs, the anchored guards hold: merging only with balanced first declaration and after scanning all values for all variables, "
-             "local-function conversion only without self reference, `self` prepended exactly for methods, receivers duplicated only when effect-free, "
+             "local-function conversion only without self reference, `self` prepended exactly for methods, receivers duplicated only when effect-free and, if multi-valued, parenthesised as first argument, "
              "scope-aware sqrt conversion scope-driven. Full semantics of the refactorings are not decided.", note=TB, ref="DESIGN.md §3 C16"),
     "C17": dict(
         technique="static analysis: visitor typestate, sibling-callback guard rule (is_identifier_used before every rewrite), matcher constant agreement, keep/order rules on kept arguments",
